@@ -943,5 +943,9 @@ pub fn replay(j: &serde_json::Value) -> Option<Verdict> {
 
 /// Entry point of the `set_diff` fuzz target.
 pub(crate) fn fuzz_bytes(bytes: &[u8]) -> Verdict {
-    check_deep(&deep_case(bytes).0)
+    // (inputs whose first byte is odd are decoded as a tree about one subject, the others as a deep-None tree)
+    match bytes.split_first() {
+        Some((sel, rest)) if sel % 2 == 1 => check_deep(&subject_case(rest)),
+        _ => check_deep(&deep_case(bytes).0),
+    }
 }
